@@ -364,6 +364,8 @@ func (r *Renderer) rawExpr(e N, sep string) {
 						sb.WriteRune(c)
 					}
 				}
+			} else if S(M(pn, "e"), "k") == "nilnode" {
+				sb.WriteString("{}") // the empty interpolation
 			} else {
 				sub := &Renderer{Full: r.Full}
 				sub.Expr(M(pn, "e"), "")
